@@ -4,7 +4,9 @@
 
 use crate::scenario::Op;
 use crate::stats::Ctx;
-use ndarray::{Array1, ArrayD, Axis, IxDyn, ShapeBuilder};
+use ndarray::{Array, Array1, ArrayD, Axis, IxDyn, ShapeBuilder};
+use num_traits::{Float, FromPrimitive};
+use std::ops::AddAssign;
 use ndarray_stats::SummaryStatisticsExt;
 use std::panic::{catch_unwind, AssertUnwindSafe};
 
@@ -59,54 +61,72 @@ fn build<T: Clone>(shape: &[usize], data: Vec<T>, f_order: bool) -> ArrayD<T> {
     }
 }
 
+fn weighted_float_check<T, D>(a: Array<T, D>, w: Array1<T>, axis: usize, ddof: T, eps: f64) -> R
+where
+    T: Float + FromPrimitive + AddAssign + std::fmt::Debug + 'static,
+    D: ndarray::Dimension + ndarray::RemoveAxis,
+{
+    let err = |what: &str, e: String| ("bulk-vs-single:weighted".to_string(), format!("{}: {}", what, e));
+    let n = w.len() as f64;
+    let sums = a.weighted_sum_axis(Axis(axis), &w).map_err(|e| err("weighted_sum_axis", format!("{:?}", e)))?;
+    let means = a.weighted_mean_axis(Axis(axis), &w).map_err(|e| err("weighted_mean_axis", format!("{:?}", e)))?;
+    let vars = a.weighted_var_axis(Axis(axis), &w, ddof).map_err(|e| err("weighted_var_axis", format!("{:?}", e)))?;
+    let stds = a.weighted_std_axis(Axis(axis), &w, ddof).map_err(|e| err("weighted_std_axis", format!("{:?}", e)))?;
+    let mut want_shape = a.shape().to_vec();
+    want_shape.remove(axis);
+    for (nm, sh) in [("sum", sums.shape()), ("mean", means.shape()), ("var", vars.shape()), ("std", stds.shape())] {
+        if sh != want_shape.as_slice() {
+            return Err(err("shape", format!("weighted_{}_axis returned shape {:?}, expected {:?}", nm, sh, want_shape)));
+        }
+    }
+    let f = |x: T| x.to_f64().unwrap();
+    let wv = w.view();
+    for (l, lane) in a.lanes(Axis(axis)).into_iter().enumerate() {
+        let abs_terms: f64 = lane.iter().zip(w.iter()).map(|(d, w)| (f(*d) * f(*w)).abs()).sum();
+        let wsum: f64 = w.iter().map(|x| f(*x)).sum();
+        let tol = 8.0 * n * eps;
+        let s1 = f(lane.weighted_sum(&wv).unwrap());
+        let m1 = f(lane.weighted_mean(&wv).unwrap());
+        let v1 = f(lane.weighted_var(&wv, ddof).unwrap());
+        let d1 = f(lane.weighted_std(&wv, ddof).unwrap());
+        let got = [f(*sums.iter().nth(l).unwrap()), f(*means.iter().nth(l).unwrap()), f(*vars.iter().nth(l).unwrap()), f(*stds.iter().nth(l).unwrap())];
+        let sq_terms: f64 = lane.iter().zip(w.iter()).map(|(d, w)| f(*d) * f(*d) * f(*w).abs()).sum();
+        let denom = (wsum - f(ddof)).abs().max(1e-300);
+        let checks = [
+            ("sum", s1, got[0], tol * abs_terms),
+            ("mean", m1, got[1], tol * abs_terms / wsum.abs()),
+            ("var", v1, got[2], 4.0 * tol * sq_terms / denom),
+            ("std", d1, got[3], 4.0 * tol * (sq_terms / denom).sqrt() + (4.0 * tol * sq_terms / denom).sqrt()),
+        ];
+        for (nm, single, axis_v, t) in checks {
+            let ok = (single.is_nan() && axis_v.is_nan()) || (single - axis_v).abs() <= t || single == axis_v;
+            if !ok {
+                return Err(err(
+                    "value",
+                    format!("weighted_{}_axis(axis {}) lane {} = {:?}, the whole-array routine on that lane gives {:?} (lane {:?}, weights {:?}, ddof {:?})", nm, axis, l, axis_v, single, lane, w, ddof),
+                ));
+            }
+        }
+    }
+    Ok(())
+}
+
 macro_rules! float_weighted {
-    ($t:ty, $shape:expr, $ints:expr, $wints:expr, $axis:expr, $ddof:expr, $f:expr) => {{
+    ($t:ty, $shape:expr, $ints:expr, $wints:expr, $axis:expr, $ddof:expr, $f:expr, $static:expr) => {{
         let data: Vec<$t> = $ints.iter().map(|&v| v as $t * 0.25).collect();
         let a = build(&$shape, data, $f);
         let w = Array1::from($wints.iter().map(|&v| v as $t * 0.5).collect::<Vec<$t>>());
-        let n = w.len() as f64;
         let eps = <$t>::EPSILON as f64;
         let ddof = $ddof as $t;
-        let sums = a.weighted_sum_axis(Axis($axis), &w).map_err(|e| ("bulk-vs-single:weighted".to_string(), format!("weighted_sum_axis: {:?}", e)))?;
-        let means = a.weighted_mean_axis(Axis($axis), &w).map_err(|e| ("bulk-vs-single:weighted".to_string(), format!("weighted_mean_axis: {:?}", e)))?;
-        let vars = a.weighted_var_axis(Axis($axis), &w, ddof).map_err(|e| ("bulk-vs-single:weighted".to_string(), format!("weighted_var_axis: {:?}", e)))?;
-        let stds = a.weighted_std_axis(Axis($axis), &w, ddof).map_err(|e| ("bulk-vs-single:weighted".to_string(), format!("weighted_std_axis: {:?}", e)))?;
-        let mut want_shape = $shape.clone();
-        want_shape.remove($axis);
-        for (nm, sh) in [("sum", sums.shape()), ("mean", means.shape()), ("var", vars.shape()), ("std", stds.shape())] {
-            if sh != want_shape.as_slice() {
-                return Err(("bulk-vs-single:weighted".into(), format!("weighted_{}_axis returned shape {:?}, expected {:?}", nm, sh, want_shape)));
-            }
+        if $static && $shape.len() == 1 {
+            weighted_float_check(a.into_dimensionality::<ndarray::Ix1>().unwrap(), w, $axis, ddof, eps)
+        } else if $static && $shape.len() == 2 {
+            weighted_float_check(a.into_dimensionality::<ndarray::Ix2>().unwrap(), w, $axis, ddof, eps)
+        } else if $static && $shape.len() == 3 {
+            weighted_float_check(a.into_dimensionality::<ndarray::Ix3>().unwrap(), w, $axis, ddof, eps)
+        } else {
+            weighted_float_check(a, w, $axis, ddof, eps)
         }
-        let wv = w.view();
-        for (l, lane) in a.lanes(Axis($axis)).into_iter().enumerate() {
-            let abs_terms: f64 = lane.iter().zip(w.iter()).map(|(d, w)| (*d as f64 * *w as f64).abs()).sum();
-            let wsum: f64 = w.iter().map(|x| *x as f64).sum();
-            let tol = 8.0 * n * eps;
-            let s1 = lane.weighted_sum(&wv).unwrap() as f64;
-            let m1 = lane.weighted_mean(&wv).unwrap() as f64;
-            let v1 = lane.weighted_var(&wv, ddof).unwrap() as f64;
-            let d1 = lane.weighted_std(&wv, ddof).unwrap() as f64;
-            let got = [*sums.iter().nth(l).unwrap() as f64, *means.iter().nth(l).unwrap() as f64, *vars.iter().nth(l).unwrap() as f64, *stds.iter().nth(l).unwrap() as f64];
-            let sq_terms: f64 = lane.iter().zip(w.iter()).map(|(d, w)| (*d as f64) * (*d as f64) * (*w as f64)).sum();
-            let denom = (wsum - ddof as f64).abs().max(1e-300);
-            let checks = [
-                ("sum", s1, got[0], tol * abs_terms),
-                ("mean", m1, got[1], tol * abs_terms / wsum.abs()),
-                ("var", v1, got[2], 4.0 * tol * sq_terms / denom),
-                ("std", d1, got[3], 4.0 * tol * (sq_terms / denom).sqrt() + (4.0 * tol * sq_terms / denom).sqrt()),
-            ];
-            for (nm, single, axis_v, t) in checks {
-                let ok = (single.is_nan() && axis_v.is_nan()) || (single - axis_v).abs() <= t || single == axis_v;
-                if !ok {
-                    return Err((
-                        "bulk-vs-single:weighted".into(),
-                        format!("weighted_{}_axis(axis {}) lane {} = {:?}, the whole-array routine on that lane gives {:?} (lane {:?}, weights {:?}, ddof {})", nm, $axis, l, axis_v, single, lane, w, ddof),
-                    ));
-                }
-            }
-        }
-        Ok(())
     }};
 }
 
@@ -124,7 +144,8 @@ fn weighted(op: &Op) -> R {
     }
     let kind = op.aux.get(3).and_then(|a| a.first()).copied().unwrap_or(0);
     let f_order = op.aux.get(4).and_then(|a| a.first()).copied().unwrap_or(0) == 1;
-    let ddof = op.idx.first().copied().unwrap_or(0).min(1);
+    let ddof = op.idx.first().copied().unwrap_or(0).min(4) as f64 / 4.0;
+    let static_dims = op.idx.get(1).copied().unwrap_or(0) == 1;
     match kind {
         1 => {
             let a = build(&shape, ints.clone(), f_order);
@@ -152,7 +173,7 @@ fn weighted(op: &Op) -> R {
             }
             Ok(())
         }
-        2 => float_weighted!(f32, shape, ints, wints, axis, ddof, f_order),
-        _ => float_weighted!(f64, shape, ints, wints, axis, ddof, f_order),
+        2 => float_weighted!(f32, shape, ints, wints, axis, ddof, f_order, static_dims),
+        _ => float_weighted!(f64, shape, ints, wints, axis, ddof, f_order, static_dims),
     }
 }
